@@ -112,18 +112,56 @@ func expectedField(u *e3.Unit, f *protogen.Field) *sym.E {
 }
 
 var extValRe = regexp.MustCompile(`ext\((E_\w+)\)(\.\([^)]*\))?`)
+var hasExtRe = regexp.MustCompile(`(?:csproto\.)?HasExtension\(\w+, (E_\w+)\)`)
+
+// flattenConj splits a guard of the form "(A && B)" into its top-level conjuncts.
+func flattenConj(g string) []string {
+	if !strings.HasPrefix(g, "(") || !strings.HasSuffix(g, ")") {
+		return []string{g}
+	}
+	inner := g[1 : len(g)-1]
+	depth := 0
+	for i := 0; i < len(inner); i++ {
+		switch inner[i] {
+		case '(':
+			depth++
+		case ')':
+			depth--
+			if depth < 0 {
+				return []string{g} // the outer parentheses do not match each other
+			}
+		case '&':
+			if depth == 0 && strings.HasPrefix(inner[i:], "&& ") && i > 0 && inner[i-1] == ' ' {
+				return append(flattenConj(strings.TrimSpace(inner[:i])), flattenConj(strings.TrimSpace(inner[i+3:]))...)
+			}
+		case '|':
+			if depth == 0 && strings.HasPrefix(inner[i:], "|| ") {
+				return []string{g}
+			}
+		}
+	}
+	return []string{g}
+}
 
 // canonTerms normalises term keys for the comparison with the expectation.
 func canonTerms(in map[string]int64) map[string]int64 {
 	out := map[string]int64{}
 	for k, c := range in {
 		k = extValRe.ReplaceAllString(k, "xv($1)")
-		gs, rest := sym.SplitGuards(k)
-		// X!=nil is implied by "X is T"
+		k = hasExtRe.ReplaceAllString(k, "hasx($1)")
+		gs0, rest := sym.SplitGuards(k)
+		var gs []string
+		for _, g := range gs0 {
+			gs = append(gs, flattenConj(g)...)
+		}
+		// X!=nil is implied by "X is T"; xv(E)!=nil is implied by hasx(E) (a set extension has a value)
 		isOf := map[string]bool{}
 		for _, g := range gs {
 			if i := strings.Index(g, " is "); i > 0 {
 				isOf[g[:i]] = true
+			}
+			if strings.HasPrefix(g, "hasx(") {
+				isOf["xv("+strings.TrimPrefix(g, "hasx(")] = true
 			}
 		}
 		var keep []string
@@ -275,7 +313,8 @@ func checkC05(r *core.Result) {
 					for _, mf := range f.Oneof.Fields {
 						wrapper := "*" + safeName(u, mf.GoIdent.GoName)
 						val := sym.Atom(op + ".(" + wrapper + ")." + safeName(u, mf.GoName))
-						parts = append(parts, sym.Guard(op+" is "+wrapper, fieldBytes(int64(mf.Desc.Number()), mf.Desc.Kind(), val)))
+						// selected = the interface holds this wrapper type and the wrapper pointer is not nil
+						parts = append(parts, sym.Guard(op+" is "+wrapper, sym.Guard(op+".("+wrapper+")!=nil", fieldBytes(int64(mf.Desc.Number()), mf.Desc.Kind(), val))))
 						methods = append(methods, kindTable[mf.Desc.Kind()].encode...)
 					}
 					// tag check per member is folded into the byte count only by size; check numbers through the call list
@@ -326,7 +365,15 @@ func checkC05(r *core.Result) {
 							continue
 						}
 						ev := "E_" + e.GoIdent.GoName
-						want := sym.Guard("xv("+ev+")!=nil", fieldBytes(int64(e.Desc.Number()), e.Desc.Kind(), sym.Atom("xv("+ev+")")))
+						// presence of an extension is HasExtension. The v2 API's GetExtension never returns nil (it
+						// yields the default / a typed nil message for an unset extension), so a value test is a
+						// presence test only for the gogo / v1 API and only when no default is declared.
+						want := sym.Guard("hasx("+ev+")", fieldBytes(int64(e.Desc.Number()), e.Desc.Kind(), sym.Atom("xv("+ev+")")))
+						if u.Combo.Runtime == "gogo" && !e.Desc.HasDefault() {
+							if g := renderTerms(byField["xv("+ev+")"]); !strings.Contains(g, "hasx(") {
+								want = sym.Guard("xv("+ev+")!=nil", fieldBytes(int64(e.Desc.Number()), e.Desc.Kind(), sym.Atom("xv("+ev+")")))
+							}
+						}
 						check("extension "+string(e.Desc.Name()), "xv("+ev+")", "extension "+e.Desc.Kind().String(), want, int64(e.Desc.Number()), kindTable[e.Desc.Kind()].encode, nil)
 					}
 				}
